@@ -356,9 +356,12 @@ class DateRoundTrip(Harness):
         if d != {'s': 1} or abs(t) > 4 * 10 ** 10:
             return [{'mode': 'to_duration', 'a': number_json(t, d)}]
         base = '#3000-01-01 00:00:00 +00:00#'
+        # the same law on instants in named zones, across a daylight-saving change (the model's zone is abstract)
+        ny, be = '#2021-03-13 12:00:00 America/New_York#', '#2021-10-31 12:00:00 Europe/Berlin#'
+        probes = [{'mode': 'query', 'text': '(%s + 86400 s) - %s' % (ny, ny)}, {'mode': 'query', 'text': '((%s - 86400 s) + 86400 s) - %s' % (be, be)}]
         if self.mode == 'add_sub':
-            return [{'mode': 'query', 'text': '(%s + %s s) - %s' % (base, frac_text(t), base)}]
-        return [{'mode': 'query', 'text': '((%s - %s s) + %s s) - %s' % (base, frac_text(t), frac_text(t), base)}]
+            return [{'mode': 'query', 'text': '(%s + %s s) - %s' % (base, frac_text(t), base)}] + probes
+        return [{'mode': 'query', 'text': '((%s - %s s) + %s s) - %s' % (base, frac_text(t), frac_text(t), base)}] + probes
 
     def judge(self, inputs, label, obs):
         t = Fraction(inputs['t'])
@@ -369,6 +372,10 @@ class DateRoundTrip(Harness):
             return True, 'panic %s' % (q.get('panic') or q.get('render_panic'))
         got = obs_number_json(q)
         want = t if self.mode == 'add_sub' else Fraction(0)
+        for o, w, txt in zip(obs[1:3], (Fraction(86400), Fraction(0)), ('(d + 86400 s) - d in America/New_York across 2021-03-14', '((d - 86400 s) + 86400 s) - d in Europe/Berlin across 2021-10-31')):
+            g = obs_number_json(o)
+            if o.get('outcome') == 'panic' or g is None or g[0] != w:
+                return True, '%s gave %s, expected %s s' % (txt, g if g is not None else o.get('display') or o.get('panic'), w)
         if (t * 10 ** 9).denominator != 1:
             return False, 'not a whole number of nanoseconds'
         if got is None or got[0] != want:
